@@ -539,10 +539,10 @@ class NodeDeref:
 
     def __repr__(self):
         return (
-            self.expression
+            repr(self.expression)
             + "["
-            + self.index
-            + (", " + self.default_value if self.default_value else "")
+            + repr(self.index)
+            + (", " + repr(self.default_value) if self.default_value else "")
             + "]"
         )
 
@@ -968,14 +968,14 @@ class NodeFor:
             + (
                 self.identifiers[0]
                 if len(self.identifiers) == 1
-                else "[" + self.identifiers + "]"
+                else "[" + ", ".join(self.identifiers) + "]"
             )
             + " in "
             + self.what
             + " "
-            + self.expression
+            + repr(self.expression)
             + " do "
-            + self.block
+            + repr(self.block)
             + ")"
         )
 
